@@ -60,23 +60,25 @@ def unhex (c : UInt8) : UInt8 :=
   else if 65 ≤ c && c ≤ 70 then c - 65 + 10
   else 0
 
-/-- `url.unescape(s, encodePath)`: `none` = EscapeError -/
+/-- `url.unescape(s, encodePath)`: `none` = EscapeError (a '%' not followed by two hex digits) -/
 def unescapePath : Bytes → Option Bytes
   | [] => some []
-  | c :: rest =>
-    if c = percent then
-      match rest with
-      | a :: b :: rest' =>
-        if isHex a && isHex b then
-          match unescapePath rest' with
-          | some t => some ((unhex a <<< 4 ||| unhex b) :: t)
-          | none => none
-        else none
-      | _ => none
-    else match unescapePath rest with
+  | [c] => if c = percent then none else some [c]
+  | [c, a] =>
+    if c = percent then none
+    else match unescapePath [a] with
       | some t => some (c :: t)
       | none => none
-termination_by s => s.length
+  | c :: a :: b :: rest =>
+    if c = percent then
+      if isHex a && isHex b then
+        match unescapePath rest with
+        | some t => some ((unhex a <<< 4 ||| unhex b) :: t)
+        | none => none
+      else none
+    else match unescapePath (a :: b :: rest) with
+      | some t => some (c :: t)
+      | none => none
 
 /-- `url.shouldEscape(c, encodePath)` -/
 def shouldEscapePath (c : UInt8) : Bool :=
